@@ -221,6 +221,23 @@ def run_impl(sc):
             except Exception:  # noqa: BLE001
                 res = 9
             obs.append(observe(res))
+        # afterwards: a subclass adds a state with a value of its own; that value means nothing to the base class:
+        # written through the validating setter of a base-class instance it is refused (and nothing is stored)
+        try:
+            extra = State(value=424242)
+            Sub = type(StateMachine)("Sub", (M,), {"zz_extra": extra, "zz_to_extra": states[sc["initial"]].to(extra),
+                                                   "zz_back": extra.to(states[sc["initial"]])})
+            assert Sub is not None
+            other = M(make_model(sc), state_field=sc["field"])
+            before = getattr(other.model, sc["field"], None)
+            try:
+                other.current_state_value = 424242
+                obs[-1] = dict(obs[-1], res=8)          # accepted: not a value of this class
+            except InvalidStateValue:
+                if getattr(other.model, sc["field"], None) != before:
+                    obs[-1] = dict(obs[-1], res=8)
+        except Exception:  # noqa: BLE001 - (machines that cannot be instantiated again, async ones, ...: nothing to check)
+            pass
         return obs
 
 
@@ -265,8 +282,8 @@ def opt(x, f=str):
 def coq_case(sc, obs):
     vs = "[" + "; ".join(cq_val(model_value(sc, i)) for i in range(len(sc["values"]))) + "]"
     ts = "[" + "; ".join(f"({x[0]}, {x[1]}, {x[2]})" for x in sc["trans"]) + "]"
-    sv = "None" if sc["start"] is None else f"(Some {cq_val(ref_value(sc, sc['start']))})"
-    st0 = "None" if (sc["stored"] is None or sc["shape"] == "none") else f"(Some {cq_val(ref_value(sc, sc['stored']))})"
+    sv = "(@None pyval)" if sc["start"] is None else f"(Some {cq_val(ref_value(sc, sc['start']))})"
+    st0 = "(@None pyval)" if (sc["stored"] is None or sc["shape"] == "none") else f"(Some {cq_val(ref_value(sc, sc['stored']))})"
     ops = []
     for op in sc["ops"]:
         if op[0] == "send":
